@@ -4,6 +4,7 @@ import (
 	"fmt"
 	"math/rand"
 	"sync"
+	"time"
 
 	"github.com/junioryono/godi/v4"
 	"github.com/junioryono/godi/v4/verifh/eng"
@@ -22,6 +23,26 @@ func (cr *caseRunner) next() (int, bool) {
 	i := cr.idx
 	cr.idx++
 	return i, cr.c.Mine(i)
+}
+
+// guard runs fn (one case's execution against godi) with a generous wall-clock bound. When it
+// does not return, the goroutine dump decides: goroutines waiting in a lock/channel with a godi
+// frame on their stack, identically in two samples 2 s apart, are a non-termination finding
+// (the process cannot go on and abandons the case); anything else is inconclusive.
+func (cr *caseRunner) guard(idx int, what func() string, fn func()) {
+	done := make(chan struct{})
+	go func() { defer close(done); fn() }()
+	v := eng.AwaitOrDiagnose(done, 20*time.Second)
+	if v.Done {
+		return
+	}
+	if v.Deadlock {
+		cr.c.R.Violation(eng.Violation{Prop: cr.prop, Clause: "operation-never-returns", Sig: cr.prop + "/operation-never-returns:" + eng.InnermostGodiFn(v.Dump), Case: idx, CaseID: fmt.Sprintf("case-%d", idx),
+			Detail: "a sequential operation on the container never returned; goroutines stuck inside godi (two samples, 2 s apart):\n" + v.Dump + "\n" + what()})
+	} else {
+		cr.c.R.Inconclusive(idx, "case did not finish within the watchdog and no goroutine is provably stuck inside godi")
+	}
+	cr.c.R.Abandon(idx)
 }
 
 func (cr *caseRunner) rng(idx int) *rand.Rand {
